@@ -21,6 +21,10 @@ type Scenario struct {
 	D int `json:"d,omitempty"`
 	// MaxPerClient bounds edits per client (0 = K).
 	MaxPerClient int `json:"max_per_client,omitempty"`
+	// EditCaps / SyncCaps bound the edits / syncs of individual clients
+	// (index = client; a missing entry or -1 = no individual bound, 0 = none).
+	EditCaps []int `json:"edit_caps,omitempty"`
+	SyncCaps []int `json:"sync_caps,omitempty"`
 	// Env lists environment event kinds (evict, compact, compactF) with budget E.
 	Env []string `json:"env,omitempty"`
 	E   int      `json:"e,omitempty"`
@@ -43,6 +47,10 @@ type Scenario struct {
 	Cfg             Config `json:"cfg"`
 }
 
+func capOK(caps []int, c, used int) bool {
+	return c >= len(caps) || caps[c] < 0 || used < caps[c]
+}
+
 func (sc *Scenario) alphabet(c int) []string {
 	if c < len(sc.PerClient) && sc.PerClient[c] != nil {
 		return sc.PerClient[c]
@@ -63,7 +71,7 @@ func (sc *Scenario) candidates(b *budget) []Event {
 	var out []Event
 	total := sc.N + sc.Late
 	for c := 0; c < total; c++ {
-		if b.k < sc.K && (sc.MaxPerClient == 0 || b.perClient[c] < sc.MaxPerClient) && !(sc.EditsFirst && b.y > 0) {
+		if b.k < sc.K && (sc.MaxPerClient == 0 || b.perClient[c] < sc.MaxPerClient) && capOK(sc.EditCaps, c, b.perClient[c]) && !(sc.EditsFirst && b.y > 0) {
 			for _, op := range sc.alphabet(c) {
 				out = append(out, Event{K: "e", C: c, Op: op})
 			}
@@ -78,7 +86,7 @@ func (sc *Scenario) candidates(b *budget) []Event {
 				out = append(out, Event{K: "fu", C: c, Op: op})
 			}
 		}
-		if b.y < sc.Y && (sc.MaxSyncPerClient == 0 || b.perSync[c] < sc.MaxSyncPerClient) {
+		if b.y < sc.Y && (sc.MaxSyncPerClient == 0 || b.perSync[c] < sc.MaxSyncPerClient) && capOK(sc.SyncCaps, c, b.perSync[c]) {
 			out = append(out, Event{K: "s", C: c})
 			if sc.PushOnly {
 				out = append(out, Event{K: "po", C: c})
